@@ -6,6 +6,7 @@ import (
 	"fmt"
 	"io"
 	"sync"
+	"sync/atomic"
 	"testing"
 	"time"
 
@@ -111,11 +112,13 @@ func checkC31(c c31Case) (o vstat.Outcome) {
 			_ = cl.IsAccepted()
 		}
 	}
+	var stragglers sync.WaitGroup
 	if c.AcceptDuringClose {
 		// the underlying stream's Close takes a while; an accept arrives in the meantime
 		a.OnClose = func() {
 			done := make(chan struct{})
-			go func() { doOp('a'); close(done) }()
+			stragglers.Add(1)
+			go func() { defer stragglers.Done(); doOp('a'); close(done) }()
 			select {
 			case <-done:
 			case <-time.After(20 * time.Millisecond):
@@ -126,10 +129,9 @@ func checkC31(c c31Case) (o vstat.Outcome) {
 	if c.Interleave {
 		hookMu.Lock()
 		defer hookMu.Unlock()
-		fired := false
+		var fired atomic.Bool
 		verifhook.Set(func(point string) {
-			if point == "solicit:accept-checked" && !fired {
-				fired = true
+			if point == "solicit:accept-checked" && fired.CompareAndSwap(false, true) {
 				doOp('c')
 			}
 		})
@@ -157,6 +159,10 @@ func checkC31(c c31Case) (o vstat.Outcome) {
 			}
 		}
 	}
+	// an accept started from inside the stream's Close finishes once Close has returned
+	stragglers.Wait()
+	mu.Lock()
+	defer mu.Unlock()
 	hasA, hasC := false, false
 	for _, s := range c.Seqs {
 		for i := 0; i < len(s); i++ {
